@@ -100,6 +100,14 @@ func authSetup(s *rt.Sim, tier string) func() {
 		case verifierMode == 5:
 			auth.SetAllowInsecureKES(true)
 		}
+		// knob (own stream): in the modes "without a verifier" the verifier was installed once
+		// and has been cleared again (SetKESVerifier(nil)); the authenticator is then without a
+		// KES verifier just as if none had ever been set
+		if verifierMode >= 4 && s.Tape.Choose("cfg.x", 2) == 1 {
+			auth.SetKESVerifier(kesVerifierForTests)
+			auth.SetKESVerifier(nil)
+			rt.Hit("auth.verifier-cleared")
+		}
 		ntasks := 2 + pick("cfg", 5)
 		perTask := 1 + pick("cfg", 6)
 		if ntasks*perTask > 36 {
